@@ -104,13 +104,15 @@ fn main() {
                     e2::Mode::Pct { seed: p[0].as_u64().unwrap(), preemptions: p[1].as_u64().unwrap() as usize, horizon: p[2].as_u64().unwrap_or(60) as usize }
                 } else if let Some(f) = m.get("free") {
                     e2::Mode::Free { seed: f.as_u64().unwrap() }
+                } else if let Some(f) = m.get("real") {
+                    e2::Mode::Real { seed: f.as_u64().unwrap() }
                 } else {
                     e2::Mode::Script(m["script"].as_array().map(|a| a.iter().map(|x| x.as_str().unwrap().to_string()).collect()).unwrap_or_default())
                 };
                 (name, mode)
             });
             let shard = replay.as_ref().and_then(|r| r.get("shard")).and_then(|s| s.as_u64()).unwrap_or(shard);
-            e2::run(seed, shard, nshards, a.u64("schedules", if thorough { 4000 } else { 250 }), a.u64("free", if thorough { 200 } else { 20 }), only, &mut rep);
+            e2::run(seed, shard, nshards, a.u64("schedules", if thorough { 4000 } else { 250 }), a.u64("free", if thorough { 200 } else { 20 }), a.u64("real", 0), only, &mut rep);
         }
         "c07f" => {
             pure_c07f::run(&mut rep);
